@@ -12,6 +12,8 @@ import Mathlib.Tactic.Ring
 import Mathlib.Algebra.Order.Field.Basic
 import Proofs.Lemmas.Affinity
 import Proofs.Lemmas.Bounds
+import Proofs.Lemmas.AffinityExtent
+import Proofs.C11
 namespace SE.Proofs.C06
 open SE SE.Affinity
 variable {σ : Type}
@@ -671,5 +673,250 @@ example : affinity boxGeos (.timeStamp 3) (.timeInterval 4 7) (3/2) 1 = .ok (1/1
 example : rnd64 (1/3) = 6004799503160661 / 18014398509481984 := by decide +kernel
 example : rnd64 (1/10) = 3602879701896397 / 36028797018963968 := by decide +kernel
 example : rnd64 1 = 1 ∧ rnd64 0 = 0 ∧ rnd64 5000000 = 5000000 := by decide +kernel
+
+/-! ## follow-up 2: the buffered time extent is pinned from the coordinates
+
+  `C06_time_only_is_time_iou` says that the time-branch affinity is the time IoU of `G.st / G.en` of
+  whatever `buffer_geometry` returned for a point / line type — a buffer that truncates its result
+  satisfies it just as well.  The theorems below say what that extent has to be: the raw time bounds
+  `[s, e]` of the coordinates moved outwards by the time buffer, `[max (s - tb) 0, e + tb]`
+  (`ρ = κ = 1`), and for the polygonal buffer GEOS computes an explicit band around it
+  (`ρ ≤ 1 ≤ κ`).  `bufferedTimeBand` is what the check evaluates on every such pair. -/
+
+/-- **the band of the time IoU** (monotonicity of overlap and union in the ends of an extent) -/
+theorem timeIoU_band (B : ExtentBox) (st en s2 e2 : Rat)
+    (h1 : B.stLo ≤ st) (h2 : st ≤ B.stHi) (h3 : B.enLo ≤ en) (h4 : en ≤ B.enHi)
+    (ho : st ≤ en) (ho2 : s2 ≤ e2) :
+    (timeIoUBand B s2 e2).1 ≤ timeIoU st en s2 e2 ∧ timeIoU st en s2 e2 ≤ (timeIoUBand B s2 e2).2 :=
+  timeIoU_in_band B st en s2 e2 h1 h2 h3 h4 ho ho2
+
+/-- an admissible buffered extent `[st, en]` (raw bounds `[s, e]`, buffer `tb`, at least `ρ` and at most `κ`
+    buffers outwards) has its time IoU with any extent `[s2, e2]`, in either argument order, inside
+    `extentBand` -/
+theorem C06_extent_band (ρ κ tol s e tb st en s2 e2 : Rat)
+    (hw : extentWithin ρ κ tol s e tb st en = true) (ho : st ≤ en) (ho2 : s2 ≤ e2) :
+    ((extentBand ρ κ tol s e tb s2 e2).1 ≤ timeIoU st en s2 e2 ∧
+      timeIoU st en s2 e2 ≤ (extentBand ρ κ tol s e tb s2 e2).2) ∧
+    ((extentBand ρ κ tol s e tb s2 e2).1 ≤ timeIoU s2 e2 st en ∧
+      timeIoU s2 e2 st en ≤ (extentBand ρ κ tol s e tb s2 e2).2) := by
+  obtain ⟨a, b, c, d⟩ := (extentWithin_iff ρ κ tol s e tb st en).mp hw
+  have := timeIoU_in_band (extentBox ρ κ tol s e tb) st en s2 e2 a b c d ho ho2
+  exact ⟨this, by rw [timeIoU_symm s2 e2 st en]; exact this⟩
+
+/-- **for `ρ = κ = 1` (and no slack) the band is the single value the property names**: the time IoU of
+    the ideal buffered extent `[max (s - tb) 0, e + tb]` -/
+theorem C06_extent_band_exact (s e tb s2 e2 : Rat) (hs : 0 ≤ s) (he : s ≤ e) (hb : 0 ≤ tb) (ho2 : s2 ≤ e2) :
+    extentBand 1 1 0 s e tb s2 e2 =
+      (timeIoU (idealExtent s e tb).1 (idealExtent s e tb).2 s2 e2,
+       timeIoU (idealExtent s e tb).1 (idealExtent s e tb).2 s2 e2) := by
+  unfold extentBand idealExtent
+  rw [extentBox_exact]
+  exact timeIoUBand_collapse _ _ _ _ (max_le (by linarith) (by linarith)) ho2
+
+/-- … and the only admissible extent is the ideal one -/
+theorem C06_extent_exact (s e tb st en : Rat) (hw : extentWithin 1 1 0 s e tb st en = true) :
+    (st, en) = idealExtent s e tb := by
+  obtain ⟨a, b, c, d⟩ := (extentWithin_iff 1 1 0 s e tb st en).mp hw
+  rw [extentBox_exact] at a b c d
+  simp only at a b c d
+  unfold idealExtent
+  rw [le_antisymm b a, le_antisymm d c]
+
+/-- **Time-only against a point / line type, from the coordinates.**  `g` a Point, LineString, MultiPoint
+    or MultiLineString with raw bounds `b`, `h` a TimeStamp or TimeInterval.  If the time extent GEOS
+    reports for the buffer of `g` is admissible (`extentWithin`, monitored on every such pair), then
+    `compute_affinity`, in either argument order, returns one value inside the band
+    `bufferedTimeBand ρ κ tol g h tb fb` that the check computes without the library's buffer code -/
+theorem C06_buffered_time_band (G : Geos σ) (g h : Geom) (ρ κ tol tb fb : Rat) (b : Bounds) (band : Rat × Rat)
+    (hb : 0 ≤ tb ∧ 0 ≤ fb) (wh : WF h) (hgb : g.bounds = some b)
+    (hband : bufferedTimeBand ρ κ tol g h tb fb = some band)
+    (hext : extentWithin ρ κ tol b.st b.en tb (G.st (G.buffered g tb fb)) (G.en (G.buffered g tb fb)) = true)
+    (hord : G.st (G.buffered g tb fb) ≤ G.en (G.buffered g tb fb)) :
+    ∃ v, affinity G g h tb fb = .ok v ∧ affinity G h g tb fb = .ok v ∧ band.1 ≤ v ∧ v ≤ band.2 := by
+  unfold bufferedTimeBand at hband
+  by_cases hc : (geosBuffered g && timeTypes.contains h.tag) = true
+  · rw [if_pos hc] at hband
+    obtain ⟨hg, ht⟩ := Bool.and_eq_true_iff.mp hc
+    obtain ⟨s2, e2, p2, pu, o2⟩ := prepare_timeOnly G h tb fb ht hb wh
+    have p1 := prepare_geosBuffered G g tb fb hg hb
+    rw [hgb, pu] at hband
+    simp only [timeBounds, Option.some.injEq] at hband
+    subst hband
+    obtain ⟨k1, k2⟩ := C06_extent_band ρ κ tol b.st b.en tb _ _ s2 e2 hext hord o2
+    refine ⟨timeIoU (G.st (G.buffered g tb fb)) (G.en (G.buffered g tb fb)) s2 e2, ?_, ?_, k1.1, k1.2⟩
+    · rw [affinity_eq G g h tb fb _ _ p1 p2]
+      simp [affinityP, isTime_interval, timeBounds]
+    · rw [affinity_eq G h g tb fb _ _ p2 p1, timeIoU_symm]
+      simp [affinityP, isTime_interval, timeBounds]
+  · rw [if_neg hc] at hband
+    cases hband
+
+/-- **the property's clause**: when the reported extent is the ideal one (`ρ = κ = 1`, no slack — an
+    exact buffer), the affinity *is* the IoU of the ideal buffered time extents: `[max (s - tb) 0, e + tb]`
+    for the point / line type with raw bounds `[s, e] = [b.st, b.en]` (`b` is tied to `g` by `hext` alone: in
+    the check it is `g.bounds`), and the closed-form extent of the time-only side -/
+theorem C06_buffered_time_exact (G : Geos σ) (g h : Geom) (tb fb : Rat) (b : Bounds) (x2 : Rat × Rat)
+    (hb : 0 ≤ tb ∧ 0 ≤ fb) (wh : WF h) (hg : geosBuffered g = true) (ht : timeTypes.contains h.tag = true)
+    (hx : closedExtent h tb = some x2)
+    (hext : extentWithin 1 1 0 b.st b.en tb (G.st (G.buffered g tb fb)) (G.en (G.buffered g tb fb)) = true) :
+    affinity G g h tb fb = .ok (timeIoU (max (b.st - tb) 0) (b.en + tb) x2.1 x2.2) ∧
+    affinity G h g tb fb = .ok (timeIoU (max (b.st - tb) 0) (b.en + tb) x2.1 x2.2) := by
+  obtain ⟨s2, e2, p2, _, _⟩ := prepare_timeOnly G h tb fb ht hb wh
+  have p1 := prepare_geosBuffered G g tb fb hg hb
+  have hx2 : x2 = (s2, e2) := by
+    have hn : ¬ (tb < 0 ∨ fb < 0) := by
+      rintro (h | h) <;> linarith [hb.1, hb.2]
+    rw [prepare_spec] at p2
+    cases h <;> simp [timeTypes, Geom.tag] at ht <;> simp [closedExtent] at hx <;> simp [hn] at p2 <;>
+      rw [← hx] <;> simp [p2.1, p2.2]
+  have he := C06_extent_exact _ _ _ _ _ hext
+  simp only [idealExtent, Prod.mk.injEq] at he
+  subst hx2
+  constructor
+  · rw [affinity_eq G g h tb fb _ _ p1 p2]
+    simp [affinityP, isTime_interval, timeBounds, he.1, he.2]
+  · rw [affinity_eq G h g tb fb _ _ p2 p1]
+    simp only [affinityP, isTime_interval, timeBounds, Bool.true_or, if_true]
+    rw [timeIoU_symm, he.1, he.2]
+
+/-- **the shapely pipeline satisfies the extent contract** (corollary of C11's pipeline theorems).
+    `S` the point set of a valid point / line geometry `g` with raw bounds `b` (it contains the vertices
+    and has no time outside `[b.st, b.en]`), `buf` GEOS's buffer with the two contracts `CoversDisc ρ`
+    (lower side: `C11_pipeline_bounds_extend`) and `ReachAtMost κ` (upper side), `[st, en]` the time extent
+    of the result of `buffer_shapely_geometry`.  Then `[st, en]` is admissible, exactly (`tol = 0`). -/
+theorem C06_pipeline_extent_within (buf : SE.Buf.PSet → SE.Buf.PSet) (S : SE.Buf.PSet) (g : Geom) (b : Bounds)
+    (ρ κ tb fb m maxT st en : Rat) (hρ : 0 ≤ ρ) (hκ : 0 ≤ κ) (h1 : 0 < tb) (h2 : 0 ≤ fb) (hm0 : 0 ≤ m)
+    (hg : geosBuffered g = true) (hv : SE.Buf.valid g = true) (hb : g.bounds = some b)
+    (hS : ∀ c ∈ g.boundPts, S c) (hSb : ∀ c, S c → b.st ≤ c.1 ∧ c.1 ≤ b.en)
+    (hdisc : SE.Buf.CoversDisc ρ buf) (hreach : ReachAtMost κ buf)
+    (hm : SE.Buf.IsMaxTime buf S tb fb maxT)
+    (hext : IsTimeExtent (SE.Buf.pipelineSet buf S tb fb m maxT) st en) :
+    extentWithin ρ κ 0 b.st b.en tb st en = true := by
+  obtain ⟨hall, ⟨p, hp, hpst⟩, ⟨p', hp', hpen⟩⟩ := hext
+  -- lower side: C11
+  have hrb : ∀ q, SE.Buf.pipelineSet buf S tb fb m maxT q → SE.Buf.inRect ⟨st, 0, en, MAXF⟩ q := by
+    intro q hq
+    obtain ⟨_, d2, d3⟩ := SE.Proofs.C11.C11_pipeline_in_domain buf S tb fb m maxT q hq
+    exact ⟨(hall q hq).1, (hall q hq).2, d2, d3⟩
+  obtain ⟨lo1, _, lo3, _⟩ := SE.Proofs.C11.C11_pipeline_bounds_extend buf S g b ⟨st, 0, en, MAXF⟩ ρ tb fb m maxT
+    hρ h1.le h2 hm0 (geosBuffered_not_closedForm g hg) hv hb hS hdisc hm hrb
+  -- upper side: nothing of the buffer is farther than κ from the scaled input
+  have reach : ∀ q, SE.Buf.pipelineSet buf S tb fb m maxT q →
+      0 ≤ q.1 ∧ b.st - κ * tb ≤ q.1 ∧ q.1 ≤ b.en + κ * tb := by
+    intro q hq
+    have hd := SE.Proofs.C11.C11_pipeline_in_domain buf S tb fb m maxT q hq
+    obtain ⟨_, r, hr, rfl⟩ := hq
+    obtain ⟨c', ⟨c, hc, rfl⟩, hdist⟩ := hreach _ r hr
+    obtain ⟨a1, a2⟩ := abs_coord_of_dist2 r (SE.Buf.scalePt tb fb c) κ hκ hdist
+    obtain ⟨b1, b2⟩ := hSb c hc
+    have hf : SE.Buf.factor tb = 1 / tb := SE.Proofs.Lemmas.Buffer.factor_of_pos tb h1
+    simp only [SE.Buf.scalePt, SE.Buf.unscalePt, hf] at a1 a2 hd ⊢
+    have e1 : r.1 / (1 / tb) = r.1 * tb := by field_simp
+    have e2 : c.1 * (1 / tb) * tb = c.1 := by field_simp
+    rw [e1]
+    refine ⟨by rw [← e1]; exact hd.1, ?_, ?_⟩
+    · have := mul_le_mul_of_nonneg_right a1 h1.le
+      nlinarith
+    · have := mul_le_mul_of_nonneg_right a2 h1.le
+      nlinarith
+  obtain ⟨u1, u2, _⟩ := reach p hp
+  obtain ⟨_, _, u3⟩ := reach p' hp'
+  rw [extentWithin_iff]
+  simp only [extentBox, slack, zero_mul, sub_zero, add_zero]
+  simp only at lo1 lo3
+  exact ⟨by rw [← hpst]; exact max_le u2 u1, lo1, lo3, by rw [← hpen]; exact u3⟩
+
+/-- with an exact unit buffer the extent of the pipeline's result is the ideal one -/
+theorem C06_pipeline_extent_ideal (S : SE.Buf.PSet) (g : Geom) (b : Bounds) (tb fb m maxT st en : Rat)
+    (h1 : 0 < tb) (h2 : 0 ≤ fb) (hm0 : 0 ≤ m)
+    (hg : geosBuffered g = true) (hv : SE.Buf.valid g = true) (hb : g.bounds = some b)
+    (hS : ∀ c ∈ g.boundPts, S c) (hSb : ∀ c, S c → b.st ≤ c.1 ∧ c.1 ≤ b.en)
+    (hm : SE.Buf.IsMaxTime SE.Buf.discBuf S tb fb maxT)
+    (hext : IsTimeExtent (SE.Buf.pipelineSet SE.Buf.discBuf S tb fb m maxT) st en) :
+    extentWithin 1 1 0 b.st b.en tb st en = true ∧ (st, en) = idealExtent b.st b.en tb := by
+  have := C06_pipeline_extent_within SE.Buf.discBuf S g b 1 1 tb fb m maxT st en (by norm_num) (by norm_num) h1 h2 hm0
+    hg hv hb hS hSb (SE.Proofs.C11.C11_pipeline_contracts_ideal.2 1 (by norm_num) (le_refl _)) reachAtMost_discBuf hm hext
+  exact ⟨this, C06_extent_exact _ _ _ _ _ this⟩
+
+/-- **end to end**: the model of `buffer_shapely_geometry` (C11) under its two GEOS contracts, a `Geos`
+    whose reported bounds of the buffered shape are the time extent of that point set, a time-only
+    partner: `compute_affinity` lies in the band computed from the coordinates, and for the exact unit
+    buffer it is the IoU of the ideal buffered time extents -/
+theorem C06_pipeline_affinity_band (G : Geos σ) (buf : SE.Buf.PSet → SE.Buf.PSet) (S : SE.Buf.PSet) (g h : Geom)
+    (b : Bounds) (band : Rat × Rat) (ρ κ tb fb m maxT : Rat) (hρ : 0 ≤ ρ) (hκ : 0 ≤ κ) (h1 : 0 < tb) (h2 : 0 ≤ fb)
+    (hm0 : 0 ≤ m) (wh : WF h) (hv : SE.Buf.valid g = true) (hb : g.bounds = some b)
+    (hband : bufferedTimeBand ρ κ 0 g h tb fb = some band)
+    (hS : ∀ c ∈ g.boundPts, S c) (hSb : ∀ c, S c → b.st ≤ c.1 ∧ c.1 ≤ b.en)
+    (hdisc : SE.Buf.CoversDisc ρ buf) (hreach : ReachAtMost κ buf)
+    (hm : SE.Buf.IsMaxTime buf S tb fb maxT)
+    (hext : IsTimeExtent (SE.Buf.pipelineSet buf S tb fb m maxT)
+      (G.st (G.buffered g tb fb)) (G.en (G.buffered g tb fb))) :
+    ∃ v, affinity G g h tb fb = .ok v ∧ affinity G h g tb fb = .ok v ∧ band.1 ≤ v ∧ v ≤ band.2 := by
+  have hg : geosBuffered g = true := by
+    unfold bufferedTimeBand at hband
+    by_cases hc : (geosBuffered g && timeTypes.contains h.tag) = true
+    · exact (Bool.and_eq_true_iff.mp hc).1
+    · rw [if_neg hc] at hband; cases hband
+  have hw := C06_pipeline_extent_within buf S g b ρ κ tb fb m maxT _ _ hρ hκ h1 h2 hm0 hg hv hb hS hSb hdisc hreach hm hext
+  obtain ⟨hall, ⟨p, hp, _⟩, _⟩ := hext
+  have hord : G.st (G.buffered g tb fb) ≤ G.en (G.buffered g tb fb) := by
+    have := hall p hp; linarith [this.1, this.2]
+  exact C06_buffered_time_band G g h ρ κ 0 tb fb b band ⟨h1.le, h2⟩ wh hb hband hw hord
+
+-- non-vacuity: a point at 5 s buffered by 3/2 s against the interval [4, 8]
+example : bufferedTimeBand 1 1 0 (.point 5 2000) (.timeInterval 4 8) (3/2) 100 = some (5/9, 5/9) := by decide +kernel
+example : extentWithin 1 1 0 5 5 (3/2) (7/2) (13/2) = true ∧ extentWithin 1 1 0 5 5 (3/2) (7/2) (16/3) = false := by
+  decide +kernel
+-- the truncated extent [7/2, 16/3] (the clip edge read in the scaled space: 5 / (3/2) + 2) gives 8/27, outside the band
+example : timeIoU (7/2) (16/3) 4 8 = 8/27 ∧ inBand (5/9, 5/9) (1 / 2 ^ 40) (8/27) = false := by decide +kernel
+-- round caps: a line end may fall short by 0.49 % of the buffer; the band has a width
+example : bufferedTimeBand (9951/10000) 1 0 (.lineString [(4, 3000), (6, 3000)]) (.timeInterval 4 8) 2 500
+    = some (19951 / 30000, 20000 / 29951) := by decide +kernel
+-- the contracts of `C06_pipeline_extent_within` are met by the exact unit buffer on a one-point set
+example : ReachAtMost 1 SE.Buf.discBuf ∧ SE.Buf.CoversDisc 1 SE.Buf.discBuf :=
+  ⟨reachAtMost_discBuf, SE.Proofs.C11.C11_pipeline_contracts_ideal.2 1 (by norm_num) (le_refl _)⟩
+example : geosBuffered (.point 5 2000) = true ∧ SE.Buf.valid (.point 5 2000) = true ∧
+    (Geom.point 5 2000).bounds = some ⟨5, 2000, 5, 2000⟩ := by decide +kernel
+
+/-- non-vacuity of `C06_pipeline_extent_within` / `C06_pipeline_extent_ideal`: the one-point set `{(5, 2000)}` with
+    the exact unit buffer, time buffer 3/2 s, frequency buffer 100 Hz: the result of the pipeline has the time extent
+    `[7/2, 13/2]`, `13/2` bounds its times (`IsMaxTime`), and the conclusion holds of it -/
+example : SE.Buf.IsMaxTime SE.Buf.discBuf (fun p => p = ((5 : Rat), (2000 : Rat))) (3/2) 100 (13/2) ∧
+    IsTimeExtent (SE.Buf.pipelineSet SE.Buf.discBuf (fun p => p = ((5 : Rat), (2000 : Rat))) (3/2) 100 1 (13/2))
+      (7/2) (13/2) ∧
+    extentWithin 1 1 0 5 5 (3/2) (7/2) (13/2) = true := by
+  have f1 : SE.Buf.factor (3/2) = 2/3 := by
+    rw [SE.Proofs.Lemmas.Buffer.factor_of_pos _ (by norm_num)]; norm_num
+  have f2 : SE.Buf.factor 100 = 1/100 := SE.Proofs.Lemmas.Buffer.factor_of_pos _ (by norm_num)
+  have hmax : SE.Buf.IsMaxTime SE.Buf.discBuf (fun p => p = ((5 : Rat), (2000 : Rat))) (3/2) 100 (13/2) := by
+    intro q hq
+    obtain ⟨c', ⟨c, hc, rfl⟩, hq⟩ := hq
+    subst hc
+    have h := SE.Proofs.Lemmas.Buffer.coord_le_of_dist2 _ _ hq
+    simp only [SE.Buf.scalePt, SE.Buf.unscalePt, f1] at h ⊢
+    rw [div_le_iff₀ (by norm_num)]
+    linarith
+  have hM : (2000 : Rat) ≤ MAXF := by decide +kernel
+  have key := SE.Proofs.C11.C11_pipeline_exact_ideal (fun p => p = ((5 : Rat), (2000 : Rat))) (3/2) 100 1 (13/2)
+    (by norm_num) hmax
+  refine ⟨hmax, ⟨?_, ⟨((7/2 : Rat), (2000 : Rat)), ?_, rfl⟩, ⟨((13/2 : Rat), (2000 : Rat)), ?_, rfl⟩⟩, by decide +kernel⟩
+  · intro p hp
+    obtain ⟨_, c, rfl, hw⟩ := (key p).mp hp
+    simp only [SE.Buf.withinBuffers, f1, f2] at hw
+    constructor
+    · by_contra hc
+      have hc := not_le.mp hc
+      nlinarith [mul_self_nonneg ((p.2 - 2000) * (1 / 100))]
+    · by_contra hc
+      have hc := not_le.mp hc
+      nlinarith [mul_self_nonneg ((p.2 - 2000) * (1 / 100))]
+  · exact (key _).mpr ⟨⟨by norm_num, by norm_num, hM⟩, _, rfl, by simp only [SE.Buf.withinBuffers, f1, f2]; norm_num⟩
+  · exact (key _).mpr ⟨⟨by norm_num, by norm_num, hM⟩, _, rfl, by simp only [SE.Buf.withinBuffers, f1, f2]; norm_num⟩
+
+-- the shoelace area (contract `AreaExact`): a 2 x 3 rectangle given as a closed ring, with a unit-square hole
+example : closedArea (.polygon [[(0, 0), (2, 0), (2, 3), (0, 3), (0, 0)]]) = some 6 := by decide +kernel
+example : closedArea (.polygon [[(0, 0), (2, 0), (2, 3), (0, 3)], [(1/2, 1), (1/2, 2), (3/2, 2), (3/2, 1), (1/2, 1)]]) = some 5 := by
+  decide +kernel
+example : closedArea (.boundingBox 1 2 3 5) = some 6 := by decide +kernel
 
 end SE.Proofs.C06
